@@ -94,8 +94,10 @@ JudgeBilin(e) ==
 (* C12 *)
 JudgeFinalExp(e) ==
   IF e.f = F12Zero THEN IsNone(e.out)
-  ELSE IsSome(e.out) /\ e.out[2] = (IF e.f[2] = F6Zero THEN F12One   \* f in Fq6: q^6 - 1 divides the exponent
-                                    ELSE FinalExp(e.f))
+  ELSE /\ IsSome(e.out)
+       /\ (IF e.f[2] = F6Zero THEN e.out[2] = F12One                 \* f in Fq6: q^6 - 1 divides the exponent
+           ELSE IF "cheap" \in DOMAIN e THEN F12Pow(e.out[2], R) = F12One   \* some element of the target group
+           ELSE e.out[2] = FinalExp(e.f))
 (* multiplicativity and order, as relations between library results *)
 JudgeFeRel(e) ==
   /\ e.out.fg = F12Mul(e.f, e.g)
@@ -114,7 +116,9 @@ LabelsOK(e) ==
   /\ \A i \in 1..Len(e.bs) : AffRep(e.out.qs[i], E2!PMulInt(Gen2, e.bs[i]))
 JudgePairl(e) ==
   /\ LabelsOK(e)
-  /\ CASE e.fn = "miller" -> IsSome(e.out.fe) /\ e.out.fe[2] = GTPow(SumAB(e.as, e.bs, 1))
+  /\ CASE e.fn = "miller" -> /\ IsSome(e.out.fe) /\ e.out.fe[2] = GTPow(SumAB(e.as, e.bs, 1))
+                              \* the value does not depend on the form in which the list is handed over
+                              /\ ("forms" \in DOMAIN e.out => \A k \in 1..Len(e.out.forms) : e.out.forms[k] = e.out.fe)
        [] e.fn = "pmulti" -> e.out.v = GTPow(SumAB(e.as, e.bs, 1))
        [] e.fn = "pprod"  -> e.out.v = GTPow(SumAB(e.as, e.bs, 1))
        [] e.fn = "reuse"  ->
